@@ -52,4 +52,23 @@ def obligations(tier, seed):
     obs.append(Ob(id='C16.values', prop='C16', group='C16.values', prelude=PRE, wrappers=ws, inputs=[], body='\n' + '\n'.join(checks) + '\n',
                   contract='C.as<T>(u) / C.in<T>(u) / implicit Quantity conversion return the independently computed exact value; can_store_value_in answers the representability '
                            'question on the listed boundary instances (constants, no inputs)', functions_under_contract=('au::Constant::as/in/operator Quantity/can_store_value_in',)))
+    # ---- supporting static facts (one probe TU each, so that a hard error is attributed to its instance): availability exactly when representable
+    HDR = '#include "au/constant.hh"\n#include "au/prefix.hh"\n#include "au/constants/speed_of_light.hh"\n#include "au/units/meters.hh"\n#include "au/units/seconds.hh"\n#define VF_STATIC_FACT(c) static_assert(c, "VF_STATIC_FACT")\n'
+    probes = []
+    for (T, mx) in (('int8_t', 127), ('uint8_t', 255), ('int16_t', 32767), ('uint16_t', 65535), ('int32_t', 2147483647), ('uint32_t', 4294967295),
+                    ('int64_t', 9223372036854775807), ('uint64_t', 18446744073709551615)):
+        C = 'au::make_constant(au::Meters{} * au::mag<%dULL>())' % mx
+        probes.append(('max_%s' % T, 'VF_STATIC_FACT(%s.can_store_value_in<%s>(au::meters));\nVF_STATIC_FACT(%s.in<%s>(au::meters) == %s);\nVF_STATIC_FACT(%s.as<%s>(au::meters).in(au::meters) == %s);'
+                       % (C, T, C, T, '%dULL' % mx if mx > (1 << 62) else '%dLL' % mx, C, T, '%dULL' % mx if mx > (1 << 62) else '%dLL' % mx)))
+        if mx + 1 < (1 << 64):
+            C1 = 'au::make_constant(au::Meters{} * au::mag<%dULL>())' % (mx + 1)
+            probes.append(('max1_%s' % T, 'VF_STATIC_FACT(!%s.can_store_value_in<%s>(au::meters));' % (C1, T)))
+    probes.append(('c_i32', 'VF_STATIC_FACT(au::SPEED_OF_LIGHT.can_store_value_in<int32_t>(au::meters / au::second));\nVF_STATIC_FACT(au::SPEED_OF_LIGHT.in<int32_t>(au::meters / au::second) == 299792458);'))
+    probes.append(('c_i16_no', 'VF_STATIC_FACT(!au::SPEED_OF_LIGHT.can_store_value_in<int16_t>(au::meters / au::second));'))
+    probes.append(('c_km_no', 'VF_STATIC_FACT(!au::SPEED_OF_LIGHT.can_store_value_in<int64_t>(au::kilo(au::meters) / au::second));'))
+    probes.append(('c_km_f64', 'VF_STATIC_FACT(au::SPEED_OF_LIGHT.can_store_value_in<double>(au::kilo(au::meters) / au::second));'))
+    sel = probes if tier == 'thorough' else probes[:-4][::2] + probes[-4:]
+    for (nm, text) in sel:
+        obs.append(Ob(id='C16.static.%s' % nm, prop='C16', group='C16.static', prelude='', wrappers=[], inputs=[], body=HDR + text + '\nint main() {}\n', kind='S',
+                      contract='static fact: ' + text.replace('\n', ' '), functions_under_contract=('au::Constant::can_store_value_in / as / in (compile-time)',)))
     return obs
